@@ -252,7 +252,7 @@ Proof.
   replace ((((0 * 10 + (y / 10 ^ 3) mod 10) * 10 + (y / 10 ^ 2) mod 10) * 10 + (y / 10 ^ 1) mod 10) * 10 + (y / 10 ^ 0) mod 10) with y by lia.
   replace ((0 * 10 + (m / 10 ^ 1) mod 10) * 10 + (m / 10 ^ 0) mod 10) with m by lia.
   replace ((0 * 10 + (d / 10 ^ 1) mod 10) * 10 + (d / 10 ^ 0) mod 10) with d by lia.
-  rewrite N.eqb_refl.
+  change (45 =? 32)%N with false. cbv iota. rewrite N.eqb_refl.
   replace ((1 <=? m) && (m <=? 12))%bool with true by lia.
   replace ((0 <=? d) && (d <=? 31))%bool with true by lia.
   replace ((1 <=? d) && (d <=? days_in y m))%bool with true by lia.
